@@ -4,6 +4,7 @@ import (
 	"fmt"
 	"go/constant"
 	"go/token"
+	"go/types"
 	"sort"
 	"strings"
 
@@ -97,6 +98,40 @@ func seqOperands(l *loop) []ssa.Value {
 					seenCanon[ck] = true
 				}
 				out = append(out, ia.X)
+			}
+			// a padded read moved into a helper: f(seq, i) whose body indexes its sequence parameter with its
+			// index parameter
+			if c, ok := ins.(*ssa.Call); ok {
+				if g := c.Call.StaticCallee(); g != nil && g.Blocks != nil && len(c.Call.Args) == len(g.Params) {
+					for ai, a := range c.Call.Args {
+						if _, isSlice := a.Type().Underlying().(*types.Slice); !isSlice || seen[a] {
+							continue
+						}
+						for aj, ix := range c.Call.Args {
+							if !isIdx(ix) {
+								continue
+							}
+							indexes := false
+							for _, gb := range g.Blocks {
+								for _, gi := range gb.Instrs {
+									if ia, ok := gi.(*ssa.IndexAddr); ok && ia.X == ssa.Value(g.Params[ai]) && ia.Index == ssa.Value(g.Params[aj]) {
+										indexes = true
+									}
+								}
+							}
+							if indexes {
+								seen[a] = true
+								if ck := canon(a); ck != "" {
+									if seenCanon[ck] {
+										continue
+									}
+									seenCanon[ck] = true
+								}
+								out = append(out, a)
+							}
+						}
+					}
+				}
 			}
 			// a string read byte by byte with the counter is a sequence too
 			if ix, ok := ins.(*ssa.Index); ok && isIdx(ix.Index) && isStringType(ix.X.Type()) && !seen[ix.X] {
